@@ -155,6 +155,15 @@ def main():
             progs = []
             for step in item["steps"]:
                 holder = []
+                if "write" in step:
+                    # the file system changes between two loads (no library call involved)
+                    with open(step["write"], "w") as fh:
+                        fh.write(step["content"])
+                    if step.get("mtime"):
+                        os.utime(step["write"], (step["mtime"], step["mtime"]))
+                    res.append({"out": "written"})
+                    progs.append(None)
+                    continue
 
                 def run(step=step, holder=holder):
                     if step.get("cwd"):
